@@ -762,6 +762,16 @@ where
         vassert!(used >= payload, "VF:heap.used_below_payload");
         last_used = used;
     }
+    // pre-sizing changes capacities only: what is stored stays accounted (whatever the announced regions look like)
+    {
+        let narrow = S::default();
+        r.reserve_regions(std::iter::once(&narrow));
+        r.reserve_regions(std::iter::empty());
+        let hp = heap(&r);
+        let used: usize = hp.iter().map(|p| p.0).sum();
+        vassert!(hp.iter().all(|p| p.0 <= p.1), "VF:heap.used_exceeds_capacity");
+        vassert!(used >= last_used && used >= payload, "VF:heap.used_decreased_by_reserve");
+    }
     let before = caps(&r);
     let used_before: usize = heap(&r).iter().map(|p| p.0).sum();
     r.clear();
@@ -882,7 +892,7 @@ pub fn harnesses() -> Vec<H> {
         H { name: "presize_no_realloc", props: &["C17"], nargs: 8, pre: pre9, doms: doms_presize, run: run_presize, panic_ok: false,
             bound: "8 vector-backed structural regions + FlatStack::merge_capacity over one or two source stacks (slice, mirror, option-of-mirror, owned, result regions); batch of 0..3 items; reserve_items / reserve_regions (on an empty region, one holding 1 item, or one filled until a storage has 0..2 spare bytes) / merge_regions (one source, or three sources whose contents add up), then pushing exactly the announced contents: every capacity reported by heap_size constant", kani: false },
         H { name: "heap_accounting", props: &["C18"], nargs: 4, pre: pre12, doms: doms_heap, run: run_heap, panic_ok: false,
-            bound: "13 compositions; 3 pushes: used <= capacity for every pair, number of pairs, sum(used) >= payload + index entries, non-decreasing under push; after clear no payload accounted and no capacity shrank", kani: false },
+            bound: "13 compositions; 3 pushes: used <= capacity for every pair, number of pairs, sum(used) >= payload + index entries, non-decreasing under push and under reserve_regions (narrower / no sources); after clear no payload accounted and no capacity shrank", kani: false },
     ]
 }
 
@@ -1202,14 +1212,37 @@ fn run_alloc_forms(v: &[u64]) {
         15 => log_case::<FlatStack<SliceRegion<MirrorRegion<u8>>>>(n, 2, 3, |r, i| r.copy(BYTES[i % 4])),
         16 => log_case::<FlatStack<ConsecutiveIndexPairs<OwnedRegion<u8>>, IndexOptimized>>(n, 6, 3, |r, i| r.copy(BYTES[i % 4])),
         17 => log_case::<SliceRegion<ConsecutiveIndexPairs<StringRegion>, IndexOptimized>>(n, 6, 5, |r, i| { let _ = r.push(SROWS[i % 4]); }),
-        _ => log_case::<Vec<u8>>(n, 1, 1, |r, i| { let _ = <Vec<u8> as Push<&u8>>::push(r, &BYTES[2][i % 3]); }),
+        18 => log_case::<Vec<u8>>(n, 1, 1, |r, i| { let _ = <Vec<u8> as Push<&u8>>::push(r, &BYTES[2][i % 3]); }),
+        // replaying read items of another region (region-to-region copies build no temporaries)
+        19 => {
+            let mut src = <SliceRegion<MirrorRegion<u8>>>::default();
+            let idx: Vec<_> = (0..4).map(|k| src.push(BYTES[k])).collect();
+            log_case::<SliceRegion<MirrorRegion<u8>>>(n, 1, 3, |r, i| { let _ = r.push(src.index(idx[i % 4])); })
+        }
+        20 => {
+            let mut src = <SliceRegion<OwnedRegion<u8>>>::default();
+            let idx: Vec<_> = (0..4).map(|k| src.push(NESTED[k])).collect();
+            log_case::<SliceRegion<OwnedRegion<u8>>>(n, 2, 6, |r, i| { let _ = r.push(src.index(idx[i % 4])); })
+        }
+        21 => {
+            let mut src = <ColumnsRegion<MirrorRegion<u8>>>::default();
+            let idx: Vec<_> = (0..4).map(|k| src.push(ROWS[k])).collect();
+            log_case::<ColumnsRegion<MirrorRegion<u8>>>(n, 5, 3, |r, i| { let _ = r.push(src.index(idx[i % 4])); })
+        }
+        _ => {
+            let mut src = <FlatStack<SliceRegion<MirrorRegion<u8>>>>::default();
+            for k in 0..4 {
+                src.copy(BYTES[k]);
+            }
+            log_case::<FlatStack<SliceRegion<MirrorRegion<u8>>>>(n, 2, 3, |r, i| r.copy(src.get(i % 4)))
+        }
     }
 }
 fn pre_alloc_forms(v: &[u64]) -> bool {
-    v[0] < 19 && (6..=14).contains(&v[1])
+    v[0] < 23 && (6..=14).contains(&v[1])
 }
 fn doms_alloc_forms() -> Vec<Vec<u64>> {
-    vec![range(19), vec![6, 8, 10, 12, 14]]
+    vec![range(23), vec![6, 8, 10, 12, 14]]
 }
 
 // C18, last clause, on histories large enough for a storage to pass any fixed retention threshold
@@ -1248,7 +1281,7 @@ pub fn harnesses_alloc() -> Vec<H> {
     H { name: "presize_forms", props: &["C17"], nargs: 6, pre: pre_presize_forms, doms: doms_presize_forms, run: run_presize_forms, panic_ok: false,
         bound: "23 (region, ReserveItems form) pairs (four of them announced by reference and pushed in the owned Vec / array / String form): OwnedRegion (&[T;N], &[T], &Vec<T>, PushIter), StringRegion (&String, &str, &&str), SliceRegion<OwnedRegion> (&[T], &Vec<T>, &[T;N], read items), OptionRegion / ResultRegion / tuple (owned and by reference), Vec<T>, SliceRegion<MirrorRegion>; batch of 0..3 items from a pool of 4; target empty / one item / filled until 0..2 spare bytes; reserve_items(batch) then pushing the batch in the same form: every capacity constant", kani: false },
     H { name: "alloc_forms", props: &["C17"], nargs: 2, pre: pre_alloc_forms, doms: doms_alloc_forms, run: run_alloc_forms, panic_ok: false,
-        bound: "19 (composition, input form) pairs beyond the slice form: OwnedRegion via [T;N], &[T;N], &&[T;N], PushIter, &&[T]; SliceRegion via arrays; StringRegion via &&str; ColumnsRegion (mirror and string columns) via slice / array / PushIter rows; ConsecutiveIndexPairs, CollapseSequence, FlatStack (Vec and IndexOptimized offsets), SliceRegion over consecutive pairs; n = 2^6 .. 2^14 pushes without pre-sizing: at most storages x (log2(elements)+2) allocator calls", kani: false },
+        bound: "23 (composition, input form) pairs beyond the slice form (incl. read items of another slice / columns region and of a FlatStack replayed): OwnedRegion via [T;N], &[T;N], &&[T;N], PushIter, &&[T]; SliceRegion via arrays; StringRegion via &&str; ColumnsRegion (mirror and string columns) via slice / array / PushIter rows; ConsecutiveIndexPairs, CollapseSequence, FlatStack (Vec and IndexOptimized offsets), SliceRegion over consecutive pairs; n = 2^6 .. 2^14 pushes without pre-sizing: at most storages x (log2(elements)+2) allocator calls", kani: false },
     H { name: "alloc_discipline", props: &["C17"], nargs: 6, pre: pre_alloc, doms: doms_alloc, run: run_alloc, panic_ok: false,
         bound: "8 vector-backed structural regions, n = 2^6 .. 2^14 items from a 3-value repeating pattern over static inputs, counting global allocator: without pre-sizing at most storages x (log2(elements)+2) allocator calls; after reserve_items (empty or populated target) / reserve_regions / merge_regions of up to 64 announced items, zero allocator calls while pushing them", kani: false }]
 }
